@@ -511,10 +511,14 @@ package cache
 //@   ghost callback yield assigns nothing
 //@   requires c.entriesMetadata != nil
 
-// The interval listener only hands the new interval to the janitor goroutine.
+// The interval listener only hands the new interval to the janitor goroutine - every one of
+// them: each call sends exactly once, and what it sends is the interval it was told (a change
+// that is dropped while an older one waits in the channel would leave the janitor on a stale interval).
 //@ props C15 C19 C16
 //@ func newCacheJanitor$1
 //@   nopanic
+//@   requires j != nil
+//@   ensures [C19] chansends(j.intervalChanged) == old(chansends(j.intervalChanged)) + 1 && chanlast(j.intervalChanged) == newInterval
 
 // The janitor goroutine: every tick runs a cleanup cycle; a changed interval
 // re-arms the ticker with the NEW interval.
